@@ -1,5 +1,7 @@
 CONSTANTS
   Tags = {1, 2, 3}
+  Names = {101, 102}
+  NameBase = 100
   MaxSaves = 4
   AutoRule = "max+1"
 SPECIFICATION Spec
